@@ -120,7 +120,8 @@ func coqDst(n int, fill int, d0 []byte) string {
 // ErrShortDst came WITH progress.  Returns what was delivered and the class of the last call.
 func g7Drive(entry string, t transform.Transformer, src []byte, c int, fill int, rng *Rng) (out []byte, last g7Call, calls int, bad string) {
 	t.Reset()
-	for calls = 1; calls <= 4+len(src); calls++ {
+	limit := 4 + len(src)
+	for calls = 1; calls <= limit; calls++ {
 		dst := mkDst(c, fill, rng)
 		last = g7Xf(entry, t, false, dst, src, true)
 		if last.cls == 2 || last.cls == 5 {
@@ -373,7 +374,13 @@ func (c *c08) xfEnc(s string, e g7Enc, in string, level int) {
 	}
 	// a caller with a small buffer that it flushes (what Reader / Writer do), and atEOF=false
 	if e.cls == 0 && need > 0 {
-		for _, cp := range []int{need, need + 1, need + slackGo} {
+		dcaps := []int{need, need + 1, need + slackGo}
+		if need > 7 {
+			// a destination that holds one or two whole groups of eight septets: a transformer that makes partial
+			// progress delivers the text in pieces, one that does not says ErrShortDst and claims nothing
+			dcaps = append(dcaps, 7, 13, 14, need-1)
+		}
+		for _, cp := range dcaps {
 			out, last, calls, bad := g7Drive("enc/Transform", gsm7bit.Packed.NewEncoder().Transformer, src, cp, 0xA5, r.Rng)
 			where := in + fmt.Sprintf(" driven with len(dst)=%d", cp)
 			switch {
@@ -382,6 +389,8 @@ func (c *c08) xfEnc(s string, e g7Enc, in string, level int) {
 				r.Fail("xf/encode/inconsistent-counts", "encoder Transform reports counts a caller cannot use", where, bad, "0 <= nDst <= len(dst), 0 <= nSrc <= len(src), nil only when everything is consumed")
 			case last.cls == 0 && !bytes.Equal(out, e.out):
 				r.Fail("xf/encode/driven-octets-differ-from-Bytes", "a caller that flushes its buffer gets other octets than Bytes", where, fmt.Sprintf("%x after %d calls", out, calls), fmt.Sprintf("%x", e.out))
+			case last.cls == 3 && cp < need && (last.nDst > 0 || last.nSrc > 0):
+				r.Fail("xf/encode/driven-no-end", "a caller that flushes its buffer never gets to the end of the text", where, fmt.Sprintf("still ErrShortDst after %d calls, %x so far", calls, out), fmt.Sprintf("%x", e.out))
 			case last.cls != 0 && cp >= need+slackGo:
 				r.Fail("xf/encode/no-octets-although-room", "encoder Transform delivers nothing although the destination has room", where, fmt.Sprintf("class=%d %s", last.cls, last.msg), fmt.Sprintf("%x", e.out))
 			}
